@@ -103,6 +103,33 @@ def trace_batch(known, cases, subs):
     }
 
 
+def describe(diag) -> str:
+    """Words for TLC's diagnosis (Trace_Unparse.Diff): where and how the two trees differ."""
+    if not diag or not diag.get("what"):
+        return ""
+    at = "/".join(diag["path"])
+    what, was, now, n1, n2, e1 = diag["what"], diag["was"], diag["now"], diag["n1"], diag["n2"], diag["empty1"]
+    args = f"{n1} argument lists" + (f" ({e1} of them empty)" if e1 else "") + f" before, {n2} after"
+    if what == "kind":
+        return f": {was} came back as {now} at {at} ({args})"
+    if what == "argument-count":
+        return f": the argument lists of {was} at {at} are not preserved ({args})"
+    if what in ("child-count", "child-kind"):
+        return f": the content of {at} differs ({was or 'nothing'} -> {now or 'nothing'}; {n1} children before, {n2} after)"
+    if what == "text":
+        return f": a text in {at} differs"
+    return f": the {what} of {was} at {at} differ" + (f" ({args})" if n1 or n2 else "")
+
+
+def soft_drift(summ, diag, text, emitted):
+    """A difference at / below a LINK or URL with an empty argument (pipe-trick spelling [[a|]],
+    [url ]): the statement's grammar does not clearly contain these forms - DRIFT, decided by TLC."""
+    summ["drift"] += 1
+    summ["soft"] += 1
+    if len(summ["drift_samples"]) < 2:
+        summ["drift_samples"].append({"text": text, "real": emitted, "empty_link_argument": describe(diag).lstrip(": ")})
+
+
 def judge_texts(texts, known, summ, chunk_size=400):
     """texts: [(label, text)].  Real chain for each, TLC verdicts, results added to summ."""
     recs = {}
@@ -138,14 +165,20 @@ def judge_texts(texts, known, summ, chunk_size=400):
             first = not bd["e12"]
             got, ref = (rec["t2"], rec["t1"]) if first else (rec["t3"], rec["t2"])
             link = bd["links"][0] != bd["links"][1] or bd["links"][1] != bd["links"][2]
+            diag = bd.get("diag") or {}
+            if diag.get("soft") and not bd["devs"]:
+                soft_drift(summ, diag, text, ptree2.concretise(rec["w1"] if first else rec["w2"]))
+                continue
             summ["bad"].append({
                 "case": {"origin": label, "text": text, "wikitext1": ptree2.concretise(rec["w1"]),
                          "wikitext2": ptree2.concretise(rec["w2"]), "before": ptree2.show(ref), "after": ptree2.show(got),
                          "link_nodes": bd["links"]},
                 "why": ("first round trip" if first else "second round trip (not a fixed point)") + f" of {text!r} is not equivalent"
-                       + (" (number of LINK nodes changed)" if link else ""),
+                       + (" (number of LINK nodes changed)" if link else "") + describe(diag)
+                       + f"; emitted {ptree2.concretise(rec['w1'] if first else rec['w2'])!r}",
                 "devs": sorted(bd["devs"]),
-                "cls": ("rt1 " if first else "rt2 ") + label.rsplit("/", 1)[0] + (" LINK-count" if link else "")})
+                "cls": ("rt1 " if first else "rt2 ") + label.rsplit("/", 1)[0] + (" LINK-count" if link else "")
+                       + (f" {diag['what']}:{diag['was']}" if diag.get("what") else "")})
         for i, bd in r["drift"]:
             summ["drift"] += 1
             if len(summ["drift_samples"]) < 2:
@@ -153,13 +186,18 @@ def judge_texts(texts, known, summ, chunk_size=400):
                                               "model": ptree2.concretise(bd["model"])})
         for k, bd in r["subbad"]:
             sv = subs[k]
+            diag = bd.get("diag") or {}
+            if diag.get("soft") and not bd["devs"]:
+                soft_drift(summ, diag, texts[sv["from"]][1], ptree2.concretise(sv["w"]))
+                continue
             summ["bad"].append({
                 "case": {"origin": "direct", "value": ptree2.show(sv["x"]["list"] if "list" in sv["x"] else sv["x"]),
                          "wikitext": ptree2.concretise(sv["w"]), "after": ptree2.show(sv["t"]),
                          "from_document": texts[sv["from"]][1]},
-                "why": f"node_to_wikitext of a directly passed value re-parses differently: {ptree2.concretise(sv['w'])!r}",
+                "why": f"node_to_wikitext of a directly passed value re-parses differently: {ptree2.concretise(sv['w'])!r}" + describe(diag),
                 "devs": sorted(bd["devs"]),
-                "cls": "direct " + ("list" if "list" in sv["x"] else sv["x"].get("kind", "string"))})
+                "cls": "direct " + ("list" if "list" in sv["x"] else sv["x"].get("kind", "string"))
+                       + (f" {diag['what']}:{diag['was']}" if diag.get("what") else "")})
         for k, bd in r["subdrift"]:
             summ["drift"] += 1
             if len(summ["drift_samples"]) < 2:
@@ -179,7 +217,7 @@ def count_arms(t, arms):
 
 
 def new_summary():
-    return {"n": 0, "gen": [0, 0, 0.0], "trace": [0, 0, 0.0], "fam": {}, "shapes": set(), "arms": {}, "subs": 0, "eligible": 0,
+    return {"n": 0, "gen": [0, 0, 0.0], "trace": [0, 0, 0.0], "fam": {}, "shapes": set(), "arms": {}, "subs": 0, "eligible": 0, "soft": 0,
             "bad": [], "drift": 0, "drift_samples": [], "exceptions": [], "sample": None}
 
 
@@ -242,7 +280,10 @@ def run(tier: str) -> int:
     o = Outcome(PID, tier)
     thorough = tier == "thorough"
     o.rule = ("G: every document of Gen_Unparse (families D1 block context x inline, D2 block in block, D3 block pairs, "
-              "D4 inline pairs; depth 3 quick / 4 thorough) in two spellings is one case; V: every distinct sub-tree, string "
+              "D4 inline pairs, D5 literal brackets across text runs, D6 empty parts: templates / parser functions / magic-word "
+              "forms / argument references / links whose arguments are all, partly, first-only, last-only empty or blank, in "
+              "every block context, inline wrapper and outer block; depth 3 quick / 4 thorough) in two spellings is one case; "
+              "V: every distinct sub-tree, string "
               "and child list of the first trees passed directly.  distinct_nontrivial = distinct shapes (kinds, tags, "
               "attribute counts, nesting; texts ignored) of the first parse trees.")
     o.assumptions = [
@@ -250,6 +291,9 @@ def run(tier: str) -> int:
         "block boundary = edge of / neighbour of ROOT, section, list, list item, table, caption, row, cell, rule, block-level HTML element",
         "a directly passed value is checked when it is self-contained wikitext (TLC operator Eligible): no bare list item / row / cell, no leading blank",
         "the allowed-tag table as of the pinned tree is written into Unparse.tla (childless elements: '>' vs ' />')",
+        "a difference at or below a LINK / URL that has an EMPTY argument ([[a|]] is the pipe-trick spelling, [url ] an "
+        "external link with an empty text) is DRIFT (TLC: Trace_Unparse.Diff.soft); empty arguments of templates, parser "
+        "functions and argument references are in the statement (same nodes, same arguments)",
     ]
     known = sorted(o.known)
     depth = 4 if thorough else 3
@@ -269,12 +313,23 @@ def run(tier: str) -> int:
         o.extra["demo_asis_counterexample"] = bool(demo.invariant_violated)
         if not demo.invariant_violated:
             raise common.TLCError("Demo_Unparse_asis lost its counterexample")
+        # M, empty parts: the ideal emitter round-trips every call / argument reference / link with empty
+        # arguments inside the model; every what-if emitter that takes an empty argument for an absent one does not
+        em = tlc("MC_Unparse", "MC_Unparse_E.cfg", workers=1, timeout=3000, env={"TAGS_FILE": tags_file})
+        o.add_tlc("MC_Unparse_E empty parts in-model round trip + what-if emitters", em)
+        whatifs = em.tagged("WHATIF")
+        if em.tagged("EMPTYFAIL") or len(whatifs) != 3:
+            raise common.TLCError("MC_Unparse_E: the in-model round trip of the empty-part pages failed or a what-if lost its witness")
+        o.extra["empty_parts_whatif_witnesses"] = [
+            {"what_if": w["dev"], "pages_broken": w["pages"], "text": ptree2.concretise(w["text"]),
+             "emitted": ptree2.concretise(w["emitted"])} for w in whatifs]
     res = pmap(pipeline_job, jobs, chunk=1)
     gen = common.TLCResult("", 0, 0.0)
     tr = common.TLCResult("", 0, 0.0)
     fam, arms = {}, {}
-    subs = eligible = 0
+    subs = eligible = soft = 0
     for summ in res:
+        soft += summ["soft"]
         gen.distinct += summ["gen"][0]
         gen.generated += summ["gen"][1]
         gen.wall = max(gen.wall, summ["gen"][2])
@@ -295,6 +350,7 @@ def run(tier: str) -> int:
     o.extra["documents_per_family"] = fam
     o.extra["direct_values_recorded"] = subs
     o.extra["direct_values_self_contained"] = eligible
+    o.extra["empty_link_argument_differences_as_drift"] = soft
     # which arms of the transcribed emitter were exercised: node kinds of the serialised trees
     o.extra["action_coverage"] = dict(sorted(arms.items()))
     o.exhaustive = True
